@@ -173,7 +173,12 @@ class Ctx:
         return o
 
     # ------------------------------------------------------------------ harness
-    def vh(self, sub, inp, outp, jobs=12, fresh=False, timeout_ms=10000, timeout=1800, checked=False, dbg=False):
+    @staticmethod
+    def _tool_obs(o):
+        return (o["obs"].get("kind") in ("tool-error", "unimplemented")
+                or (o["obs"].get("kind") == "panic" and str(o["obs"].get("where", "")).startswith("src/")))
+
+    def vh(self, sub, inp, outp, jobs=12, fresh=False, timeout_ms=10000, timeout=1800, checked=False, dbg=False, load=True):
         cmd = [VHDBG if dbg else (VHCHK if checked else VH), "run", sub, "--in", inp, "--out", outp, "--jobs", str(jobs), "--timeout-ms", str(timeout_ms)]
         if fresh:
             cmd.append("--fresh")
@@ -182,6 +187,9 @@ class Ctx:
         if p.returncode != 0:
             sys.stdout.write(p.stdout[-3000:])
             raise ToolError("harness run %s failed rc=%d" % (sub, p.returncode))
+        if not load:       # the caller streams the file (the second build of a million scenarios need not sit in memory next to the first)
+            log("[vh] %s: scenarios executed on the real code%s in %.1fs" % (sub, " (unoptimised build)" if dbg else (" (checked build)" if checked else ""), time.time() - t))
+            return outp
         obs = [json.loads(l) for l in open(outp)]
         # a panic inside the harness's own sources (a socket that could not be bound, an exhausted port range, a bug of ours) says nothing
         # about the code under test: a tool error, never a violation
@@ -368,14 +376,20 @@ def standard_pipeline(ctx, *, sub, mc=(), gen=(), trace, random_n=0, random_extr
     if checked:
         # the same scenarios on the build with overflow checks, debug assertions and std's unsafe-precondition checks; an observation
         # that differs from the optimised build's is judged as a scenario of its own (equal observations get equal verdicts)
-        obs2 = ctx.vh(sub, inp, ctx.path("observations-checked.ndjson"), jobs=jobs, fresh=fresh, timeout_ms=timeout_ms, checked=True)
+        p2 = ctx.vh(sub, inp, ctx.path("observations-checked.ndjson"), jobs=jobs, fresh=fresh, timeout_ms=timeout_ms, checked=True, load=False)
         by = {o["id"]: o for o in obs}
         extra = []
-        for o2 in obs2:
+        n2 = 0
+        for l in open(p2):
+            o2 = json.loads(l); n2 += 1
+            if Ctx._tool_obs(o2):
+                raise ToolError("harness reported a tool error: %s" % json.dumps(o2)[:600])
             if o2["obs"] != by[o2["id"]]["obs"]:
                 extra.append({"id": len(obs) + len(extra), "scn": dict(o2["scn"], build="checked"), "obs": o2["obs"]})   # scn.id (the seed of the scenario) stays
+        if n2 != len(obs):
+            raise ToolError("the checked build answered %d scenarios, the optimised one %d" % (n2, len(obs)))
         ctx.extra["checked_build_differs"] = len(extra)
-        ctx.evaluations += len(obs2)
+        ctx.evaluations += n2
         obs = obs + extra
     ctx.evaluations += len(obs) - (len(extra) if checked else 0)
     ctx.extra["scenarios_from_tlc"] = n_tlc
